@@ -752,7 +752,7 @@ class Unit:
         name = rename or fn
         # closures that carry no specification (`|x| expr` not produced by a rewrite rule, which always writes `-> (o: T)`):
         # Verus cannot reason about their results; the engine turns a failed obligation in such a function into "undecided"
-        cl = re.findall(r'(?:[(,=]|\bmove)\s*(\|[^|\n]{0,60}\|)(?!\s*->)', body)
+        cl = re.findall(r'(?:[(,=]|\bmove)\s*(\|[^|\n]{0,60}\|)(?!\s*->\s*\()', body)   # rule-generated closures are written `|..| -> (o: T) ..`
         cl = [c for c in cl if not re.search(r'\|\s*\|', c) or True]
         if cl:
             if not hasattr(self, "opaque_closures"):
